@@ -43,7 +43,7 @@ ASSUMPTIONS = [
     "reference matcher with leaf labels in vf/models/dimlang.py + vf/models/ptcheck.py",
 ]
 
-WRAPS = ["plain", "union", "tuple", "nested", "lazy", "optional", "newtype", "ntfield", "extended", "plain"]
+WRAPS = ["plain", "union", "tuple", "nested", "lazy", "optional", "newtype", "ntfield", "extended", "plain", "union-failfirst", "union-pytree"]
 _NT_CLS = {}
 
 
@@ -88,6 +88,19 @@ def leaf_annotation(spec, wrap):
         return base
     if wrap == "union":
         return Union[int, base]
+    if wrap == "union-failfirst":
+        # a first alternative that binds the '?' axis (to the size of ANOTHER dimension) and then fails on an impossible size 99: what it
+        # bound is gone when the right alternative is tried
+        toks = spec.split()
+        q = next((i for i, t in enumerate(toks) if t.startswith(("?", "#?", "?#")) and "*" not in t), None)
+        if q is not None and q >= 1 and len(toks) >= 2 and not any("*" in t or t == "..." for t in toks):
+            alt = [toks[q]] + ["_"] * (len(toks) - 2) + ["99"]
+        else:
+            alt = toks[:-1] + ["99"] if len(toks) >= 2 and not ("*" in toks[-1] or toks[-1] == "...") else ["99"] * max(1, len(toks))
+        return Union[Shaped[np.ndarray, " ".join(alt)], base]
+    if wrap == "union-pytree":
+        # a first alternative that is a structure-less PyTree and does not match an array leaf
+        return Union[PyTree[int], base]
     if wrap == "newtype":
         return NewType("VfArr", base)  # at run time: exactly the underlying annotation
     if wrap == "ntfield":
@@ -326,6 +339,15 @@ def q_spec(draw, sym_names=()):
     return toks
 
 
+def _has_empty(d):
+    if d[0] in ("leaf",):
+        return False
+    if d[0] == "none":
+        return True
+    cs = pt.children(d)
+    return not cs or any(_has_empty(c) for c in cs)
+
+
 @st.composite
 def c16_case(draw):
     symplain = None
@@ -336,10 +358,12 @@ def c16_case(draw):
     toks = draw(q_spec(sym_names=[symplain[1]] if symplain else ()))
     meanings = [t.meaning() for t in toks]
     wrap = draw(st.sampled_from(WRAPS))
-    allow = ("tuple", "list", "dict") if wrap in ("nested", "tuple", "optional", "ntfield") else ("tuple", "list", "dict", "none")
+    allow = ("tuple", "list", "dict") if wrap in ("nested", "tuple", "optional", "ntfield", "union-pytree") else ("tuple", "list", "dict", "none")
     base = draw(gt.tree_desc(st.just(0), max_depth=3, max_leaves=5, allow=allow))
     if not pt.leaves(base):
         base = ("tuple", [("leaf", 0), ("leaf", 0)])
+    if wrap == "union-pytree" and _has_empty(base):
+        wrap = "plain"  # (an empty container would itself match PyTree[int] and count as a leaf)
     nl = len(pt.leaves(base))
     ntrees = draw(st.sampled_from([2, 2, 3, 1]))
     m = dl.MCtx()
